@@ -69,7 +69,7 @@ func (r *run) verifyChained(ma waddrmgr.ManagedAddress, sc *scopeM, a *acctM, re
 			r.fail("pubkey-wrong:via="+origin+":by="+rec.By, "%s: PubKey() is not the seed's child", where)
 			return false
 		}
-		if ma.Internal() != (rec.Branch == waddrmgr.InternalBranch) {
+		if ma.Internal() != (rec.Branch == internalBranch) {
 			r.fail("internal-flag-wrong:via="+origin+":by="+rec.By, "%s: Internal() = %v", where, ma.Internal())
 			return false
 		}
